@@ -254,7 +254,7 @@ package http
 // and nothing is streamed. Streaming starts only after the 200 header. The subscription is closed on
 // every return.
 //@ func (s *Server) handlePostStream [C20]
-//@   requires  serverWF(s) && apiReqWF(w, r) && implements(w, http.Flusher)
+//@   requires  serverWF(s) && apiReqWF(w, r) && implements(w, http.Flusher) && noNilDBs(s.store)
 //@   ghost nerr int = 0
 //@   ghost hid uint64 = 0
 //@   ghost hok bool = false
@@ -322,7 +322,7 @@ package http
 //@      p == "/promote" || p == "/stream" || p == "/tx" || p == "/events"
 
 //@ func (s *Server) serveHTTP [C20]
-//@   requires  serverWF(s) && apiReqWF(w, r) && implements(w, http.Flusher)
+//@   requires  serverWF(s) && apiReqWF(w, r) && implements(w, http.Flusher) && noNilDBs(s.store)
 //@   ghost n int = 0
 //@   ghost hdrs bool = false
 //@   on call nethttp.Header.Set op "Litefs-Id" assert n == 0 ; then hdrs = true
